@@ -263,9 +263,10 @@ def run_race_harness(run, binary, seed, n, tag, replay=None):
 TRUSTED = [
     "Rocq 8.16.1 kernel incl. vm_compute (no native_compute); no axioms (Print Assumptions: closed)",
     "the translator harness/overlay/internal/verifh/c18t (go/packages + go/types over /repo's current source): it is trusted to list every access "
-    "to a field of configs.Configurator, configs.metricLabelsIndex, k8s.Configuration, secrets.LocalSecretStore, k8s.LoadBalancerController reachable from "
-    "an entry point with no more locks than are really held; cross-checked on every run by the race detector (a race on an indexed site that the table "
-    "calls protected is reported as a violation)",
+    "to a field of configs.Configurator, configs.metricLabelsIndex, k8s.Configuration, secrets.LocalSecretStore, k8s.LoadBalancerController, nginx.LocalManager, "
+    "and every write into a Kubernetes API object that is not a fresh copy made in the writing function (locations object:<type>.<field>), reachable from "
+    "an entry point, with no more locks than are really held (deferred calls are placed at function exit in LIFO order); cross-checked on every run by the "
+    "race detector (a race on an indexed site that the table calls protected is reported as a violation)",
     "the list of concurrent entry points in c18t/main.go (worker, service-insight handlers, telemetry Collect, leader callbacks, SPIFFE rotation, informer handlers)",
     "Go's race detector (ThreadSanitizer) and the fake API clientsets / fake NGINX manager the race harness runs the real controller on",
 ]
@@ -385,16 +386,17 @@ def check(run):
         run.sample({"conflict_edge": list(k), "locks": d["locks"], "a": side(d["rps"][0][0]), "b": side(d["rps"][0][1]), "exhibited_by_race_detector": k in confirmed})
     with open(os.path.join(C.WORK, "c18_edges.json"), "w") as f:
         json.dump(edge_report, f, indent=1)
-    run.cov["rule"] = ("T: access table regenerated from /repo's source (entries x shared fields x read/write x locks held), the obligation is evaluated by vm_compute in both "
+    run.cov["rule"] = ("T: access table regenerated from /repo's source (entries x shared fields and written API-object locations x read/write x locks held), the obligation is evaluated by vm_compute in both "
                        "start-up modes of the conditional sync lock; S: %d rounds of the race harness, each %d API operations (VirtualServer / VirtualServerRoute incl. "
-                       "weights-only updates, Ingress incl. master/minion, TransportServer, Secret, ConfigMap sync, Namespace add/remove) against the real controller with "
+                       "weights-only updates, Ingress incl. master/minion (masters carrying a denied annotation), TransportServer, Secret, ConfigMap sync, Namespace add/remove) against the real controller with "
                        "service-insight, telemetry and leader-callback goroutines beside it; a case is one scenario (seed, length)." % (rounds, n))
     run.cov["trusted_base"] = TRUSTED
     run.assumptions += [
         "lock discipline only: torn reads through unsynchronised pointer publication (objects reachable from a map entry) are outside the table; the race harness reports what it sees of them under other_reports_not_on_indexed_sites",
         "a location is a struct field (a map in a field is that field); instances are conflated per type (one Configurator, Configuration, store, controller per process)",
         "goroutine creation and channels order nothing in the model (start-up code that runs before the worker is not an entry point)",
-        "the SPIFFE rotation goroutine is in the table but not driven by the race harness (no SPIRE agent)",
+        "the SPIFFE rotation goroutine is in the table but not driven by the race harness (no SPIRE agent); nginx.LocalManager's own fields are in the table but the harness runs the fake manager",
+        "API objects are conflated per type and field (object:<type>.<field>); freshness of a written object is decided inside one function (DeepCopy, literals, new, zero-valued locals, results of API clients and of functions that only return such) and through parameters (a callee that writes through a parameter is charged to the call site that passes a shared object)",
     ]
 
 
